@@ -1,4 +1,5 @@
-CONSTANTS Hosts <- H4  Weights <- WCh  StratSet <- SCh  WtSet <- BoolBoth  RefreshLists <- Lists2  Codes <- C3
+CONSTANTS Hosts <- H4  Weights <- WCh  StratSet <- SCh  WtSet <- BoolBoth  RefreshLists <- Lists1x  Codes <- C1
+CONSTANT CycleOf <- MCCycleOf
 SPECIFICATION Spec
 INVARIANTS TypeOK SelectsMember ErrorIffNoneEligible NoneEligibleMeans Rotation WeightedCycle CycleCoversAll
 CHECK_DEADLOCK FALSE
